@@ -9,5 +9,8 @@ open Gen.Src.C13
 theorem retire_model (v : Nat) (thr : Int) : retire (v : Int) thr = decide (thr < (v : Int)) := by
   unfold retire; bridge
 
+/-- `if unique_value:` – only non-empty values are fed to the cardinality sketch (the `truthy` parameter of `C13.batchFeed`) -/
+theorem counted_in_sketch_model (v : String) : countedInSketch v = decide (v ≠ "") := by unfold countedInSketch; rfl
+
 example : retire 3 2 = true ∧ retire 2 2 = false := by decide
 end Src.C13
